@@ -493,7 +493,7 @@ def run(ctx, chk):
             chk.floors.pop(r, None)
     chk.analysed['boundary_sample_inputs'] = nsamp
     if chk.tier == 'thorough':
-        rule_pebbles(ctx, chk, ('A',))
+        rule_pebbles(ctx, chk, ('A', 'W'))
     chk.analysed['explorations'] = stats
     chk.analysed['ipv6_shapes'] = shapes
     chk.assumptions += ['ABNF transcription uv/rfc3986.abnf and the indicator grammars derived from it by restricting alternatives '
